@@ -115,6 +115,9 @@ def corrupt_scenarios(rnd, quick):
             s.add("raw %x %s" % (p * slot, b"".join(x.to_bytes(4, "little") for x in hp).hex()))
             if style == "pair+table":
                 tb = bytes(rnd.choice([0xFF, 0x33, 0x33, 0x00, 0x34]) for _ in range(rnd.choice([4, 40, 300])))
+                if rnd.random() < 0.4:
+                    # every fragment marked present and stray marks behind the last one (the table is read in 256-byte strides)
+                    tb = bytes([0x33]) * (min(n, 600) + rnd.choice([1, 2, 7, 40]))
                 s.add("raw %x %s" % (f * slot + 0x400, tb.hex()))
                 mo = cnt_p * sz
                 if 0x400 + mo + 64 < slot:
